@@ -241,7 +241,7 @@ var (
 
 func knownFindings() []knownFinding {
 	knownOnce.Do(func() {
-		b, err := os.ReadFile(filepath.Join(cfg.Root, "known_findings.json"))
+		b, err := os.ReadFile(knownPath())
 		if err != nil {
 			return
 		}
@@ -257,6 +257,18 @@ func knownSig(id, sig string) bool {
 	}
 	for _, k := range knownFindings() {
 		if k.Property == id && k.Kind == "known" && k.Signature == sig {
+			return true
+		}
+	}
+	return false
+}
+
+// knownActive reports whether finding id is listed with kind "known" (not yet repaired):
+// generators use it to exclude the failing shape by construction (and count the exclusion);
+// once the entry is flipped to "fixed" the shape is generated again.
+func knownActive(id string) bool {
+	for _, k := range knownFindings() {
+		if k.ID == id && k.Kind == "known" {
 			return true
 		}
 	}
@@ -511,4 +523,11 @@ func checkKnown(t *testing.T, id string) {
 			}
 		}
 	}
+}
+
+func knownPath() string {
+	if v := os.Getenv("VERIF_KNOWN"); v != "" {
+		return v
+	}
+	return filepath.Join(cfg.Root, "known_findings.json")
 }
